@@ -331,6 +331,9 @@ def _frames(seed: int):
         df = df.astype({c: "int64" for c in cols if c not in ("name", "cat")})
         if seed % 4 == 2:
             df = df.astype({"iteration": "int8", "rank": "int8"})  # the loader stores small step numbers / ranks in one byte: requested values beyond that range select nothing
+        if seed % 5 == 3:
+            df["end"] = (df["ts"] + df["dur"] + [(-7, 0, 9)[k % 3] for k in range(len(df))]).astype("int64")  # a column called `end` that is NOT ts + dur (re-based ts, other meaning): not part of any predicate
+            cols = cols + ["end"]
         if seed % 3 == 0:
             df = df.sample(frac=1.0, random_state=seed)  # labels no longer sorted
         df = df.set_index("index", drop=False)
